@@ -84,8 +84,20 @@ pub fn follow_one(
     hop: &Hop,
     policy: RedirectAuthHeaders,
 ) -> Result<Followed, String> {
+    follow_one_head(flow, cfg, eff, original, hop, policy).map(|v| v.1)
+}
+
+/// Like `follow_one`, also returning the request head bytes this hop's request put on the wire.
+pub fn follow_one_head(
+    flow: F<Prepare>,
+    cfg: &ReqCfg,
+    eff: &Eff,
+    original: &UriRef,
+    hop: &Hop,
+    policy: RedirectAuthHeaders,
+) -> Result<(Vec<u8>, Followed), String> {
     let mut f = flow.proceed();
-    write_head_big(&mut f).map_err(|e| format!("hop head: {:?}", e))?;
+    let head_bytes = write_head_big(&mut f).map_err(|e| format!("hop head: {:?}", e))?;
     let body: Vec<u8> = if needs_body(eff.method) {
         match cfg.declared_len() {
             Some(n) if eff.depth == 0 => vec![b'x'; n as usize],
@@ -107,8 +119,8 @@ pub fn follow_one(
     let nf = r.as_new_flow(policy);
     let new_method = redirect_method(eff.method, hop.status);
     match nf {
-        Err(e) => Ok(Followed::Error(format!("{:?}", e))),
-        Ok(None) => Ok(Followed::NotFollowed),
+        Err(e) => Ok((head_bytes, Followed::Error(format!("{:?}", e)))),
+        Ok(None) => Ok((head_bytes, Followed::NotFollowed)),
         Ok(Some(nf)) => {
             let loc = hop.locations.last().cloned().unwrap_or_default();
             let loc_s = String::from_utf8_lossy(&loc).to_string();
@@ -118,7 +130,7 @@ pub fn follow_one(
                 .into_iter()
                 .filter(|(n, _)| n != "cookie" && n != "content-length" && (keep || n != "authorization"))
                 .collect();
-            Ok(Followed::Next(
+            Ok((head_bytes, Followed::Next(
                 nf,
                 Eff {
                     method: new_method.unwrap_or("?"),
@@ -127,7 +139,7 @@ pub fn follow_one(
                     depth: eff.depth + 1,
                     auth_kept: keep,
                 },
-            ))
+            )))
         }
     }
 }
@@ -141,3 +153,103 @@ pub fn initial_eff(cfg: &ReqCfg) -> Eff {
         auth_kept: true,
     }
 }
+
+// ------------------------------------------------------------------ clean Location generator (RFC 3986 and WHATWG agree on these)
+
+use crate::rng::Rng;
+
+pub const CLEAN_HOSTS: [&str; 3] = ["a.test", "b.test", "c.example"];
+
+fn seg(rng: &mut Rng) -> String {
+    let pool = ["p", "q", "dir", "x1", "a-b", "a_b", "v~1", "g.", ".g", "g..", "..g", "index.html"];
+    rng.pick(&pool).to_string()
+}
+
+fn clean_path(rng: &mut Rng) -> String {
+    let n = rng.usize_in(0, 3);
+    let mut s = String::new();
+    for _ in 0..n {
+        s.push('/');
+        s.push_str(&seg(rng));
+    }
+    if rng.chance(1, 3) || n == 0 {
+        s.push('/');
+    }
+    s
+}
+
+fn clean_query(rng: &mut Rng) -> String {
+    if rng.chance(1, 2) {
+        String::new()
+    } else {
+        format!("?{}={}", rng.pick(&["a", "k", "page"]), rng.below(50))
+    }
+}
+
+/// A Location reference drawn from the kinds of the quantifier. Returns (kind, reference).
+pub fn clean_location(rng: &mut Rng, original: &UriRef) -> (&'static str, String) {
+    let frag = if rng.chance(1, 5) { "#frag" } else { "" };
+    let port = |rng: &mut Rng, scheme: &str| -> String {
+        match rng.below(6) {
+            0 => ":8080".to_string(),
+            1 => if scheme == "https" { ":443".to_string() } else { ":80".to_string() },
+            _ => String::new(),
+        }
+    };
+    let (kind, s) = match rng.below(12) {
+        0 => {
+            // absolute, original host, same scheme
+            let sc = scheme_of(original);
+            ("abs-original-host-same-scheme", format!("{}://{}{}{}{}", sc, host_of(original), port(rng, &sc), clean_path(rng), clean_query(rng)))
+        }
+        1 => {
+            let sc = if scheme_of(original) == "http" { "https" } else { "http" };
+            ("abs-original-host-other-scheme", format!("{}://{}{}{}", sc, host_of(original), clean_path(rng), clean_query(rng)))
+        }
+        2 | 3 => {
+            let sc = *rng.pick(&["http", "https"]);
+            let h = *rng.pick(&CLEAN_HOSTS);
+            ("abs-any-host", format!("{}://{}{}{}{}", sc, h, port(rng, sc), clean_path(rng), clean_query(rng)))
+        }
+        4 => {
+            let h = *rng.pick(&CLEAN_HOSTS);
+            ("scheme-relative", format!("//{}{}{}", h, clean_path(rng), clean_query(rng)))
+        }
+        5 | 6 => ("path-absolute", format!("{}{}", clean_path(rng), clean_query(rng))),
+        7 => {
+            let mut s = String::new();
+            for _ in 0..rng.usize_in(0, 3) {
+                s.push_str(*rng.pick(&["../", "./", "../", "d/"]));
+            }
+            s.push_str(&seg(rng));
+            if rng.chance(1, 3) {
+                s.push('/');
+            }
+            ("path-relative-dots", format!("{}{}", s, clean_query(rng)))
+        }
+        8 => ("path-relative", format!("{}/{}{}", seg(rng), seg(rng), clean_query(rng))),
+        9 => ("query-only", format!("?z={}", rng.below(100))),
+        10 => ("empty", String::new()),
+        _ => {
+            let h = *rng.pick(&CLEAN_HOSTS);
+            ("abs-empty-path", format!("{}://{}", *rng.pick(&["http", "https"]), h))
+        }
+    };
+    (kind, format!("{}{}", s, frag))
+}
+
+pub fn clean_start_uri(rng: &mut Rng) -> String {
+    let sc = *rng.pick(&["http", "https"]);
+    let h = *rng.pick(&CLEAN_HOSTS);
+    let port = match rng.below(5) {
+        0 => ":8080",
+        _ => "",
+    };
+    let path = match rng.below(4) {
+        0 => String::new(),
+        _ => clean_path(rng),
+    };
+    format!("{}://{}{}{}{}", sc, h, port, path, clean_query(rng))
+}
+
+pub const REDIRECT_STATUSES: [u16; 10] = [300, 301, 302, 303, 305, 306, 307, 308, 310, 399];
